@@ -205,8 +205,14 @@ def _run_slice(args):
         if v:
             agg["viol_count"] += 1
             persig[v["sig"]] += 1
-            if persig[v["sig"]] <= 3:
-                agg["viols"].append((i, v))
+            # the first two of a signature plus a thinning sample of later ones: with state leaking between cases (a module-level
+            # cache in the code under test) the early ones may fail only because of what ran before them, while later cases of the
+            # same signature carry the history inside the case and do replay
+            if persig[v["sig"]] <= 2 or persig[v["sig"]] in (5, 17, 60, 200, 700, 2500) or res.get("replay_pref"):
+                if sum(1 for _i, v_ in agg["viols"] if v_["sig"] == v["sig"]) < 10:
+                    if res.get("replay_pref"):
+                        v = dict(v, replay_pref=True)  # the check says this case carries its history inside itself
+                    agg["viols"].append((i, v))
         if len(agg["samples"]) < 2 and (i % max(1, len(_CASES) // 7) == 0):
             agg["samples"].append(check.sample_repr(case, res))
     agg["persig"] = dict(persig)
@@ -357,7 +363,10 @@ def _run(check: Check, args, t0: float) -> int:
             print(f"KNOWN-FINDING: property={check.id} {sig} ({persig[sig]} cases) - {k.get('description', '')}")
             continue
         path = None
-        for i, v in lst:  # up to 3 stored cases per signature: the first that replays in a fresh interpreter is reported
+        # stored cases of this signature (a spread over the run, see _run_slice): the first that replays in a fresh interpreter is
+        # reported; candidates are tried from both ends and the middle so that a state-dependent prefix does not use up the attempts
+        order = sorted(range(len(lst)), key=lambda k_: (not lst[k_][1].get("replay_pref"), min(k_, len(lst) - 1 - k_), k_))
+        for i, v in [lst[k_] for k_ in order[:14]]:
             case = cases[i]
             small = _minimise(check, case, sig)
             path = _write_replay(check, tier, seed, i, small, sig, v, original=case)
